@@ -54,6 +54,11 @@ pub fn init() {
             );
             SINK_FD.store(fd, Ordering::SeqCst);
         }
+        if let Some(v) = env("IPC_VERIF_ERRNO_POISON") {
+            if let Ok(v) = v.parse::<i32>() {
+                ERRNO_POISON.store(v, Ordering::SeqCst);
+            }
+        }
         if let Some(path) = env("IPC_VERIF_SEQ") {
             let c = std::ffi::CString::new(path).unwrap();
             let fd = ::libc::open(
@@ -321,6 +326,22 @@ fn set_errno(e: i32) {
     unsafe { *::libc::__errno_location() = e };
 }
 
+static ERRNO_POISON: std::sync::atomic::AtomicI32 = std::sync::atomic::AtomicI32::new(0);
+
+/// errno holds an arbitrary stale value whenever a call succeeds; with a poison value set, the
+/// shim makes that explicit by storing it right before every real `recv`/`recvmsg`/`send`/
+/// `sendmsg`/`poll` (code that looks at errno without a failure is exposed).
+pub fn set_errno_poison(value: i32) {
+    ERRNO_POISON.store(value, Ordering::SeqCst);
+}
+
+fn poison_errno() {
+    let p = ERRNO_POISON.load(Ordering::Relaxed);
+    if p != 0 {
+        set_errno(p);
+    }
+}
+
 /// Report a descriptor that now belongs to the library.
 pub fn fd_new(how: &str, fd: i32) {
     if fd >= 0 {
@@ -356,7 +377,7 @@ fn how_code(how: &str) -> i64 {
 pub mod sys {
     pub use ::libc::*;
 
-    use super::{emit, errno, fault, fd_new, ino, nonblock, point, set_errno};
+    use super::{emit, errno, fault, fd_new, ino, nonblock, point, poison_errno, set_errno};
 
     pub unsafe fn socketpair(
         domain: c_int,
@@ -463,7 +484,10 @@ pub mod sys {
                 set_errno(e);
                 -1
             },
-            None => ::libc::sendmsg(fd, msg, flags),
+            None => {
+                poison_errno();
+                ::libc::sendmsg(fd, msg, flags)
+            },
         };
         let e = errno();
         emit(
@@ -486,7 +510,10 @@ pub mod sys {
                 set_errno(e);
                 -1
             },
-            None => ::libc::send(fd, buf, len, flags),
+            None => {
+                poison_errno();
+                ::libc::send(fd, buf, len, flags)
+            },
         };
         let e = errno();
         emit(
@@ -520,6 +547,7 @@ pub mod sys {
                 ("nb", nonblock(fd)),
             ],
         );
+        poison_errno();
         let r = ::libc::recvmsg(fd, msg, flags);
         let e = errno();
         let mut total: i64 = -1;
@@ -568,6 +596,7 @@ pub mod sys {
             "recv.call",
             &[("fd", fd as i64), ("ino", ino(fd)), ("cap", len as i64)],
         );
+        poison_errno();
         let r = ::libc::recv(fd, buf, len, flags);
         let e = errno();
         emit(
@@ -612,6 +641,7 @@ pub mod sys {
             "poll.call",
             &[("fd", fd as i64), ("ino", ino(fd)), ("ms", timeout as i64)],
         );
+        poison_errno();
         let r = ::libc::poll(fds, nfds, timeout);
         let e = errno();
         emit(
